@@ -34,7 +34,12 @@ class PyprojectTomlParser(BaseParser):
 
         if poetry_data:
             poetry_dependencies = [
-                f"{name}{version}"
+                # "*" (any version) and table values are not version specifiers
+                (
+                    f"{name}{version}"
+                    if isinstance(version, str) and version != "*"
+                    else name
+                )
                 for name, version in poetry_data.get("dependencies", {}).items()
                 if name != "python"
             ]
